@@ -76,7 +76,7 @@ pub struct Plan {
 /// (raw query value, parsed) - None raw = parameter absent
 pub fn ttl_pool(i: usize) -> (Option<&'static str>, Option<TTL>) {
     use std::time::Duration;
-    match i % 14 {
+    match i % 15 {
         0 | 1 | 2 => (None, Some(TTL::Forever)),
         3 => (Some("forever"), Some(TTL::Forever)),
         4 => (Some("ephemeral"), Some(TTL::Ephemeral)),
@@ -88,7 +88,9 @@ pub fn ttl_pool(i: usize) -> (Option<&'static str>, Option<TTL>) {
         10 => (Some("time:-1"), None),
         11 => (Some("time:99999999999999999999999"), None),
         12 => (Some("bogus"), None),
-        _ => (Some("head:"), None),
+        13 => (Some("head:"), None),
+        // the largest time TTL the query syntax can express
+        _ => (Some("time:18446744073709551615"), Some(TTL::Time(Duration::from_millis(u64::MAX)))),
     }
 }
 
@@ -153,7 +155,7 @@ pub fn generate(seed: u64, prop: &str, thorough: bool) -> Plan {
                     1 => CtxParam::Ref(gen_ctx(&mut rng)),
                     _ => CtxParam::Malformed(rng.pick(&["zzz", "", "0", "03amo4vrpv4jp3hdfqyfx5wkeX"]).to_string()),
                 },
-                ttl: rng.below(if prop == "C13" { 14 } else { 9 }),
+                ttl: rng.below(if prop == "C13" { 15 } else { 9 }),
                 meta: match rng.weighted(&[45, 35, 5, 5, 5, 5]) {
                     0 => MetaSpec::None,
                     1 => MetaSpec::Json(rng.below(6)),
